@@ -8,8 +8,8 @@ EXTENDS ModelLib
 CONSTANTS KeyType, MaxItems
 
 T1 == "tbl1"
-HB == << <<97>>, <<97,46,98>>, <<97,46>>, <<98>>, <<97,98>> >>
-RB == << <<99>>, <<98,46,99>>, <<46,99>>, <<98,99>> >>
+HB == << <<97>>, <<97,46,98>>, <<97,46>>, <<98>> >>
+RB == << <<99>>, <<98,46,99>>, <<46,99>> >>
 V(bytes) == IF KeyType = "S" THEN Str(bytes) ELSE Bin(bytes)
 K(i, j) == [h |-> V(HB[i]), r |-> V(RB[j])]
 Keys == { K(i, j) : i \in DOMAIN HB, j \in DOMAIN RB }
